@@ -21,7 +21,7 @@ def body_label(lbl):
     """'r17' -> ['r','17'], 'p3' -> ['p','3'], 'err:X' -> ['err','X'], 'empty' -> ['empty','']"""
     if lbl is None or lbl == "":
         return ["empty", ""]
-    m = re.match(r"^([rp])(\d+)$", lbl)
+    m = re.match(r"^([rpc])(\d+)$", lbl)
     if m:
         return [m.group(1), m.group(2)]
     if ":" in lbl:
@@ -75,6 +75,45 @@ def project(raw_events, scenario, bound=None):
             rid = ev.get("reqid", "")
             if rid and rid not in reqk and len(inflight) == 1:
                 reqk[rid] = inflight[0]
+
+    # per invocation: what the caller passed in, for the data checks of delivered events
+    invinfo = {}
+    for ev in raw_events:
+        if ev.get("ev") == "InvokeCall":
+            invinfo[ev["k"]] = {"ctx": ev.get("ctx", ""), "trace": ev.get("trace", ""), "now": ev.get("nowMs", 0)}
+    timeout_ms = opt.get("timeoutMs", 2000)
+
+    def data_class(ev, k, is_rt):
+        """'data-ok' iff ARN, deadline, client context / trace value of a delivered INVOKE event are right"""
+        info = invinfo.get(k)
+        if info is None:
+            return "data-unknown-invocation"
+        if not (ev.get("arn", "") or "").endswith(":function:test_function:k%d" % k):
+            return "data-bad-arn"
+        try:
+            dl = int(ev.get("deadlineMs") or 0)
+        except ValueError:
+            return "data-bad-deadline"
+        lo = info["now"] + timeout_ms - 3
+        hi = ev.get("nowMs", 0) + timeout_ms + 3
+        if not (lo <= dl <= hi):
+            return "data-bad-deadline"
+        if is_rt and (ev.get("ctx", "") or "") != info["ctx"]:
+            return "data-bad-context"
+        if not is_rt and (ev.get("trace", "") or "") != info["trace"]:
+            return "data-bad-trace"
+        return "data-ok"
+
+    big_resp = set(ev.get("size", 0) for ev in raw_events if ev.get("ev") == "RespCall" and ev.get("size", 0) > MAX_PAYLOAD)
+
+    def caller_body(lbl):
+        """the too-large error must state the size posted and the limit"""
+        if lbl and lbl.startswith("err:Function.ResponseSizeTooLarge"):
+            parts = lbl.split("|")
+            if len(parts) == 3 and parts[1].isdigit() and int(parts[1]) in big_resp and parts[2] == str(MAX_PAYLOAD):
+                return ["err", "Function.ResponseSizeTooLarge"]
+            return ["err", "Function.ResponseSizeTooLarge-wrong-sizes"]
+        return body_label(lbl)
 
     pending_lines = None
     for ev in raw_events:
@@ -131,22 +170,28 @@ def project(raw_events, scenario, bound=None):
                 o["reason"] = ev.get("reason", "")
                 pl = ev.get("payload", "")
                 m = re.match(r"^p(\d+)$", pl or "")
+                if o["kind"] == "INVOKE":
+                    o["reason"] = data_class(ev, o["inv"], o["who"] == "rt")
                 if o["who"] == "rt" and o["kind"] == "INVOKE":
-                    o["pl"] = int(m.group(1)) if m else (0 if pl == "empty" else -1)
+                    mc = re.match(r"^c(\d+)$", pl or "")
+                    # p<k>: payload of invocation k; c<k>: that payload cut at the limit (-k); other bytes: -1000000
+                    o["pl"] = int(m.group(1)) if m else (0 if pl == "empty" else (-int(mc.group(1)) if mc else -1000000))
         elif kind == "InvokeCall":
             m = re.match(r"^p(\d+)$", ev.get("payload", ""))
             o.update(e="InvokeCall", caller=ev["caller"], k=ev["k"],
                      pl=int(m.group(1)) if m else (0 if ev.get("payload") == "empty" else -1),
                      big=ev.get("size", 0) > MAX_PAYLOAD)
         elif kind == "InvokeRet":
-            o.update(e="InvokeRet", caller=ev["caller"], k=ev["k"], out=ev.get("err", ""), body=body_label(ev.get("body")),
+            o.update(e="InvokeRet", caller=ev["caller"], k=ev["k"], out=ev.get("err", ""), body=caller_body(ev.get("body")),
                      status=ev.get("status", 0), dur=ev.get("durMs", 0))
         elif kind == "ProcExit":
             if ev.get("cause") == "kill":
                 continue        # the effect of the Kill request that precedes it
             o.update(e="ProcExit", base=ev["base"], gen=ev["gen"], pk=ev["kind"], cause=ev.get("cause", ""))
         elif kind == "ExitDelivered":
-            o.update(e="ExitDelivered", base=ev["base"], gen=ev["gen"], pk=ev["kind"])
+            # recorded after the watcher took the event, possibly later than the watcher's first reactions:
+            # the delivery is an internal step of the specification
+            continue
         elif kind == "Terminate":
             o.update(e="Terminate", base=ev.get("base", ""), gen=ev.get("gen", 0), pk=ev.get("kind", ""), err=ev.get("err", ""))
         elif kind == "KillCall":
